@@ -219,6 +219,7 @@ class Case:
         B = gen.Builder(nix, f, rng)
         forced_model = {}          # key -> {"created_at": t, "updated_at": t}   (last forced and not overwritten since)
         sigs = []
+        kept = {}                  # key -> long-lived handle that has already read its timestamps (a second handle to every entity)
         try:
             for i in range(self.nops):
                 if upto is not None and i >= upto:
@@ -236,6 +237,8 @@ class Case:
                     self.viol("auto_switch_not_reported", {"expected": auto, "got": f.auto_update_timestamps})
                 ents = entities(nix, f)
                 t0 = table(ents)
+                for key, kind, h in ents:
+                    kept.setdefault(key, h)
                 r = rng.random()
                 klass, opname, target, forced = "other", "?", None, None
                 try:
@@ -296,6 +299,21 @@ class Case:
                     if key in t0 and t0[key][1] != t1[key][1] and not (forced and forced[0] == key and forced[1] == "updated_at"):
                         forced_model.get(key, {}).pop("updated_at", None)
                 self.judge(t0, t1, auto, klass, opname, T, target, forced)
+                # the time of an entity is a property of the entity, not of the handle: a handle obtained earlier reads the same values
+                for key in list(kept):
+                    if key not in t1:
+                        del kept[key]
+                        continue
+                    try:
+                        old = (kept[key].created_at, kept[key].updated_at)
+                    except Exception as e:
+                        old = ("raises", type(e).__name__)
+                    ctx.count("kept_handle_reads")
+                    if old != t1[key]:
+                        fld = "created_at" if old[0] != t1[key][0] else "updated_at"
+                        self.viol("earlier_handle_reads_other_time:%s.%s:%s" % (key.split(":")[0], fld, klass),
+                                  {"entity": key, "earlier_handle": old, "fresh_handle": t1[key], "op": opname})
+                        del kept[key]
                 kind_of = (target or (forced[0] if forced else "")).split(":")[0]
                 sigs.append((klass, kind_of, opname.split(":raised")[0], auto, stepc))
                 # occasionally: reopen and check that forced values survive, and that nothing moved
@@ -322,6 +340,7 @@ class Case:
                         f.close()
                         f = nix.File.open(self.path, nix.FileMode.ReadWrite, auto_update_timestamps=auto)
                     B.f = f
+                    kept = {}
                     self.log.append("reopen %s" % mode)
             return sigs
         finally:
